@@ -154,9 +154,12 @@ Qed.
 Lemma opt_pd_eq_new o x y : okR (opt_pd_eq New o x y).
 Proof. destruct x, y; simpl; eauto using pd_eq_new with c05. Qed.
 
+Lemma bounds_eq_new o x y : okR (bounds_eq New o x y).
+Proof. unfold bounds_eq. destruct (c_bounds x), (c_bounds y); eauto using pd_eq_new with c05. Qed.
+
 Lemma cons_body_eq_new o x y : okR (cons_body_eq New o x y).
 Proof.
-  unfold cons_body_eq. repeat apply andR_ok; eauto using pd_eq_new, opt_pd_eq_new with c05.
+  unfold cons_body_eq. repeat apply andR_ok; eauto using pd_eq_new, opt_pd_eq_new, bounds_eq_new with c05.
 Qed.
 
 Lemma find_remove_ok {B} (p : B -> result bool) l :
@@ -455,12 +458,15 @@ Qed.
 Lemma opt_pd_eq_refl o p : opts_ok o -> wf_opd p -> opt_pd_eq New o p p = Ok true.
 Proof. intros; destruct p; simpl; auto. now apply pd_eq_refl. Qed.
 
+Lemma bounds_eq_refl o x : opts_ok o -> wf_opd (c_bounds x) -> bounds_eq New o x x = Ok true.
+Proof. intros Ho W. unfold bounds_eq. destruct (c_bounds x); auto. now apply pd_eq_refl. Qed.
+
 Theorem cons_copy_equal : forall o x, opts_ok o -> wf_cons x -> cons_eq New o x x = Some (Ok true).
 Proof.
   intros o x Ho (W1 & W2 & W3). unfold cons_eq.
   assert (E : cls_eqb (c_cls x) (c_cls x) = true) by (destruct (c_cls x); reflexivity).
   rewrite E. f_equal. unfold cons_body_eq.
-  rewrite pd_eq_refl, !opt_pd_eq_refl, !(option_eqb_refl String.eqb _ String.eqb_refl); auto.
+  rewrite pd_eq_refl, bounds_eq_refl, !opt_pd_eq_refl, !(option_eqb_refl String.eqb _ String.eqb_refl); auto.
 Qed.
 
 Lemma cm_eq_refl o c : opts_ok o -> NoDup (keys (m_quals c)) -> cm_eq o c c = true.
@@ -575,7 +581,7 @@ Qed.
 Theorem cons_equal_components : forall o x y, cons_body_eq New o x y = Ok true ->
   pd_eq New o (o_ip o) (c_pd x) (c_pd y) = Ok true /\
   c_geom x = c_geom y /\ c_meas x = c_meas y /\
-  opt_pd_eq New o (c_bounds x) (c_bounds y) = Ok true /\
+  bounds_eq New o x y = Ok true /\
   opt_pd_eq New o (c_iring x) (c_iring y) = Ok true /\
   is_none (c_bounds x) = is_none (c_bounds y) /\ is_none (c_iring x) = is_none (c_iring y).
 Proof.
@@ -583,7 +589,7 @@ Proof.
   apply andR_true in H. destruct H as [H1 H]. apply andR_true in H. destruct H as [H2 H].
   apply andR_true in H. destruct H as [H3 H]. apply andR_true in H. destruct H as [H4 H5].
   injection H2 as H2. injection H5 as H5. splits; auto using option_eqb_string_eq.
-  - destruct (c_bounds x), (c_bounds y); simpl in *; auto; discriminate.
+  - unfold bounds_eq in H3. destruct (c_bounds x), (c_bounds y); simpl in *; auto; discriminate.
   - destruct (c_iring x), (c_iring y); simpl in *; auto; discriminate.
 Qed.
 
@@ -830,6 +836,19 @@ Qed.
 Lemma opt_pd_eq_sym o x y : exact o -> wf_opd x -> wf_opd y -> opt_pd_eq New o x y = opt_pd_eq New o y x.
 Proof. intros; destruct x, y; simpl; auto using pd_eq_sym. Qed.
 
+Lemma redundant_sym px bx py by_ : redundant px bx py by_ = redundant py by_ px bx.
+Proof.
+  unfold redundant. apply filter_ext. intro p.
+  rewrite (orb_comm (mem p (keys bx))), (andb_comm (redundant_on px bx p)). reflexivity.
+Qed.
+
+Lemma bounds_eq_sym o x y : exact o -> wf_opd (c_bounds x) -> wf_opd (c_bounds y) ->
+  bounds_eq New o x y = bounds_eq New o y x.
+Proof.
+  intros He Wx Wy. unfold bounds_eq. destruct (c_bounds x), (c_bounds y); auto.
+  cbn [fixR New]. rewrite redundant_sym. now apply pd_eq_sym.
+Qed.
+
 Lemma andR_congr a a' k k' : a = a' -> k = k' -> andR a k = andR a' k'.
 Proof. now intros -> ->. Qed.
 
@@ -838,7 +857,7 @@ Theorem cons_sym_exact : forall o x y, exact o -> wf_cons x -> wf_cons y ->
 Proof.
   intros o x y He (X1 & X2 & X3) (Y1 & Y2 & Y3).
   assert (B : cons_body_eq New o x y = cons_body_eq New o y x).
-  { unfold cons_body_eq. repeat apply andR_congr; auto using pd_eq_sym, opt_pd_eq_sym;
+  { unfold cons_body_eq. repeat apply andR_congr; auto using pd_eq_sym, opt_pd_eq_sym, bounds_eq_sym;
       f_equal; apply option_eqb_sym, String.eqb_sym. }
   unfold cons_eq.
   assert (C : cls_eqb (c_cls x) (c_cls y) = cls_eqb (c_cls y) (c_cls x))
@@ -877,7 +896,7 @@ Definition wf_field (f : field) : Prop :=
 Lemma cons_body_eq_refl o x : opts_ok o -> wf_cons x -> cons_body_eq New o x x = Ok true.
 Proof.
   intros Ho (W1 & W2 & W3). unfold cons_body_eq.
-  rewrite pd_eq_refl, !opt_pd_eq_refl, !(option_eqb_refl String.eqb _ String.eqb_refl); auto.
+  rewrite pd_eq_refl, bounds_eq_refl, !opt_pd_eq_refl, !(option_eqb_refl String.eqb _ String.eqb_refl); auto.
 Qed.
 
 Lemma nested_ok o : opts_ok o -> opts_ok (nested o).
@@ -1799,6 +1818,149 @@ Proof.
 Qed.
 
 (* ====================================================================== *)
+(* J. the option forms of ignore_properties; the redundant-property rule    *)
+(* ====================================================================== *)
+(* the names Properties.equals drops are the given names, plus the fill-value names exactly
+   when ignore_fill_value is set - whatever form (None / str / sequence) the option has *)
+Theorem ignored_names : forall ifv ip,
+  exists l, ign_list New ifv ip = Ok l /\
+            forall n, In n l <-> (In n (ip_list ip) \/ (ifv = true /\ In n fill_names)).
+Proof.
+  intros ifv ip. unfold ign_list. cbn [fixB New]. destruct ifv.
+  - eexists; split; [reflexivity|]. intro n. rewrite in_app_iff. intuition.
+  - eexists; split; [reflexivity|]. intro n. intuition. discriminate.
+Qed.
+
+(* a single name given as a string is the same as a one-element sequence *)
+Theorem ignore_forms_agree : forall ifv s, s <> EmptyString ->
+  ign_list New ifv (IPStr s) = ign_list New ifv (IPSeq [s]) /\
+  ip_list (IPStr s) = [s] /\ ip_list IPNone = [] /\ ip_list (IPStr EmptyString) = [].
+Proof.
+  intros ifv s N. unfold ign_list, ip_list. cbn [fixB New].
+  destruct (String.eqb_spec s ""%string) as [E|_]; [contradiction|]. auto.
+Qed.
+
+Lemma keys_strip {A} ign (l : list (string * A)) p :
+  In p (keys (strip ign l)) <-> (In p (keys l) /\ mem p ign = false).
+Proof.
+  unfold keys, strip. split.
+  - intro H. apply in_map_iff in H. destruct H as [[k v] [<- H]]. apply filter_In in H. destruct H as [H M].
+    simpl in *. split; [change k with (fst (k, v)); now apply in_map|]. now apply negb_true_iff in M.
+  - intros [H M]. apply in_map_iff in H. destruct H as [[k v] [<- H]]. apply in_map_iff. exists (k, v).
+    split; auto. apply filter_In. split; auto. simpl in *. now rewrite M.
+Qed.
+
+Lemma pd_eq_true_keys o ip u w ign p :
+  pd_eq New o ip u w = Ok true -> (p_ext u = false \/ p_ext w = false) ->
+  ign_list New (o_ifv o) ip = Ok ign -> mem p ign = false ->
+  (In p (keys (p_props u)) <-> In p (keys (p_props w))).
+Proof.
+  intros H X E M. apply pd_equal_components in H. destruct H as (H1 & _ & H3).
+  assert (Xu : p_ext u = false) by (destruct X as [X|X]; congruence).
+  destruct (H3 Xu) as (ign' & E' & K & _). rewrite E in E'. inversion E'; subst ign'.
+  specialize (K p). rewrite !keys_strip in K. tauto.
+Qed.
+
+Lemma inheritable_not_fill p : In p inheritable -> mem p fill_names = false.
+Proof. simpl. intuition; subst; reflexivity. Qed.
+
+Lemma mem_app p l1 l2 : mem p (l1 ++ l2) = mem p l1 || mem p l2.
+Proof. unfold mem. apply existsb_app. Qed.
+
+Lemma not_redundant_not_listed px bx py by_ p :
+  redundant_on px bx p = false \/ redundant_on py by_ p = false -> mem p (redundant px bx py by_) = false.
+Proof.
+  intro H. destruct (mem p (redundant px bx py by_)) eqn:M; auto. apply mem_in in M.
+  unfold redundant in M. apply filter_In in M. destruct M as [_ M].
+  apply andb_true_iff in M. destruct M as [_ M]. apply andb_true_iff in M. destruct M as [M1 M2].
+  destruct H; congruence.
+Qed.
+
+Lemma assoc_none_notin {A} p (l : list (string * A)) : assoc p l = None -> ~ In p (keys l).
+Proof. intros H I. apply mem_in in I. rewrite mem_keys_assoc, H in I. discriminate. Qed.
+
+Lemma assoc_some_in {A} p (l : list (string * A)) v : assoc p l = Some v -> In p (keys l).
+Proof. intro H. apply mem_in. now rewrite mem_keys_assoc, H. Qed.
+
+(* a bounds property that contradicts the parent (or that the parent has not), set on the bounds
+   of one side only, makes the two constructs unequal - whichever is asked *)
+Theorem bounds_contradiction_discriminates : forall o x y u w p b,
+  c_bounds x = Some u -> c_bounds y = Some w -> p_ext u = false ->
+  In p inheritable -> assoc p (p_props u) = Some b ->
+  redundant_on (p_props (c_pd x)) (p_props u) p = false ->
+  assoc p (p_props w) = None ->
+  cons_body_eq New o x y <> Ok true /\ cons_body_eq New o y x <> Ok true.
+Proof.
+  intros o x y u w p b Hx Hy Xu Hp Au R Aw.
+  assert (G : forall red, mem p red = false ->
+              exists ign, ign_list New (o_ifv o) (IPSeq red) = Ok ign /\ mem p ign = false).
+  { intros red M. unfold ign_list. cbn [fixB New ip_list]. destruct (o_ifv o); eexists; split; try reflexivity; auto.
+    now rewrite mem_app, M, (inheritable_not_fill p Hp). }
+  split; intro H; apply cons_equal_components in H; destruct H as (_ & _ & _ & Hb & _);
+    unfold bounds_eq in Hb; rewrite Hx, Hy in Hb; cbn [fixR New] in Hb.
+  - destruct (G _ (not_redundant_not_listed _ _ (p_props (c_pd y)) (p_props w) p (or_introl R))) as [ign [E M]].
+    apply (assoc_none_notin p _ Aw).
+    apply (proj1 (pd_eq_true_keys o _ u w ign p Hb (or_introl Xu) E M)). eapply assoc_some_in; eauto.
+  - destruct (G _ (not_redundant_not_listed (p_props (c_pd y)) (p_props w) _ _ p (or_intror R))) as [ign [E M]].
+    apply (assoc_none_notin p _ Aw).
+    apply (proj2 (pd_eq_true_keys o _ w u ign p Hb (or_intror Xu) E M)). eapply assoc_some_in; eauto.
+Qed.
+
+(* ... whereas bounds that merely repeat the value the parent has are the same as bounds that do
+   not set the property *)
+Definition with_bprop (c : cons) (u : pd) (p : string) (v : pval) : cons :=
+  mkC (c_cls c) (c_pd c) (c_geom c)
+      (Some (mkP (p_props u ++ [(p, v)]) (p_data u) (p_ext u) (p_ncvar u))) (c_iring c) (c_meas c).
+
+Lemma strip_app2 {A} ign (l l' : list (string * A)) : strip ign (l ++ l') = strip ign l ++ strip ign l'.
+Proof. unfold strip. apply filter_app. Qed.
+
+Lemma opt_data_eq_refl r a idt ifv icomp d : tol_ok r -> tol_ok a -> opt_data_eq r a idt ifv icomp d d = true.
+Proof. intros; destruct d; simpl; auto. now apply data_eq_refl. Qed.
+
+Lemma pd_eq_extra_ignored o ip u p v ign :
+  opts_ok o -> wf_pd u -> ign_list New (o_ifv o) ip = Ok ign -> mem p ign = true ->
+  let u' := mkP (p_props u ++ [(p, v)]) (p_data u) (p_ext u) (p_ncvar u) in
+  pd_eq New o ip u u' = Ok true /\ pd_eq New o ip u' u = Ok true.
+Proof.
+  intros [Hr Ha] W E M u'. unfold pd_eq, u'. cbn [p_props p_data p_ext p_ncvar].
+  rewrite bool_eqb_refl. cbn [negb]. destruct (p_ext u).
+  - now rewrite (option_eqb_refl String.eqb _ String.eqb_refl).
+  - rewrite E. cbn [rbind]. unfold props_eq. rewrite strip_app2.
+    assert (S : strip ign [(p, v)] = []) by (unfold strip; simpl; now rewrite M).
+    rewrite S, app_nil_r, dict_eq_refl, opt_data_eq_refl; auto using strip_nodup, pval_eq_refl.
+Qed.
+
+Theorem redundant_repeat_equal : forall o x u p v q,
+  opts_ok o -> wf_cons x -> c_bounds x = Some u -> In p inheritable -> ~ In p (keys (p_props u)) ->
+  assoc p (p_props (c_pd x)) = Some q -> pval_eq_default v q = true ->
+  cons_body_eq New o x (with_bprop x u p v) = Ok true /\ cons_body_eq New o (with_bprop x u p v) x = Ok true.
+Proof.
+  intros o x u p v q Ho (W1 & W2 & W3) Hx Hp Nin Aq Eq.
+  assert (Wu : wf_pd u) by (rewrite Hx in W2; exact W2).
+  assert (An : assoc p (p_props u) = None).
+  { destruct (assoc p (p_props u)) eqn:A; auto. exfalso. apply Nin. eapply assoc_some_in; eauto. }
+  set (px := p_props (c_pd x)). set (bu := p_props u).
+  assert (R : mem p (redundant px bu px (bu ++ [(p, v)])) = true).
+  { apply mem_in. unfold redundant. apply filter_In. split; auto.
+    assert (K : mem p (keys (bu ++ [(p, v)])) = true).
+    { apply mem_in. unfold keys. rewrite map_app. apply in_or_app. right. now left. }
+    rewrite K, orb_true_r. cbn [andb]. unfold redundant_on. rewrite assoc_app. subst bu px. rewrite An.
+    simpl. rewrite String.eqb_refl, Aq. exact Eq. }
+  assert (G : exists ign, ign_list New (o_ifv o) (IPSeq (redundant px bu px (bu ++ [(p, v)]))) = Ok ign
+                          /\ mem p ign = true).
+  { unfold ign_list. cbn [fixB New ip_list]. destruct (o_ifv o); eexists; split; try reflexivity; auto.
+    now rewrite mem_app, R. }
+  destruct G as [ign [E M]].
+  destruct (pd_eq_extra_ignored o _ u p v ign Ho Wu E M) as [P1 P2].
+  unfold cons_body_eq, bounds_eq, with_bprop.
+  cbn [c_pd c_geom c_bounds c_iring c_meas p_props fixR New]. rewrite Hx.
+  rewrite pd_eq_refl, !opt_pd_eq_refl, !(option_eqb_refl String.eqb _ String.eqb_refl); auto.
+  cbn [andR]. subst px bu.
+  rewrite (redundant_sym (p_props (c_pd x)) (p_props u ++ [(p, v)]) (p_props (c_pd x)) (p_props u)), P1, P2. auto.
+Qed.
+
+(* ====================================================================== *)
 (* witnesses and non-vacuity                                               *)
 (* ====================================================================== *)
 From CfdmV Require Import C05.Refuted.
@@ -1859,4 +2021,28 @@ Proof.
       repeat match goal with H : _ \/ _ |- _ => destruct H as [<-|H] end; try contradiction;
       vm_compute in M; discriminate.
   - intros kr k [].
+Qed.
+
+(* a coordinate with bounds, for the redundant-property rule *)
+Definition bnd : pd := mkP [] (Some (dat [3; 2] [0; 1; 1; 2; 2; 3])) false None.
+Definition latb : cons :=
+  mkC CDim (mkP [("standard_name"%string, PStr "latitude"); ("positive"%string, PStr "up")]
+                (Some (dat [3] [1; 2; 3])) false None) None (Some bnd) None None.
+
+Lemma examples_bounds_nonvacuous :
+  wf_cons latb /\ c_bounds latb = Some bnd /\ In "positive"%string inheritable /\
+  ~ In "positive"%string (keys (p_props bnd)) /\
+  pval_eq_default (PStr "up") (PStr "up") = true /\
+  redundant_on (p_props (c_pd latb)) (p_props bnd ++ [("positive"%string, PStr "down")]) "positive" = false /\
+  cons_body_eq New o0 latb (with_bprop latb bnd "positive" (PStr "up")) = Ok true /\
+  cons_body_eq New o0 latb (with_bprop latb bnd "positive" (PStr "down")) = Ok false /\
+  cons_body_eq New o0 (with_bprop latb bnd "positive" (PStr "down")) latb = Ok false /\
+  cons_body_eq New o0 (with_bprop latb bnd "positive" (PStr "down"))
+                      (with_bprop latb bnd "positive" (PStr "down")) = Ok true /\
+  cons_body_eq New o0 (with_bprop latb bnd "axis" (PStr "Y")) latb = Ok false.
+Proof.
+  splits; try (vm_compute; reflexivity).
+  - unfold wf_cons, wf_pd, wf_opd; simpl. splits; repeat constructor; simpl; intuition discriminate.
+  - simpl. tauto.
+  - simpl. tauto.
 Qed.
